@@ -1,10 +1,14 @@
 """C20 - Unified analyzer equals the union of protocol analyzers; config only masks.
 
-Structural clauses decided (DESIGN.md §5 C20):
+Structural clauses decided:
  R1 glue routing: every output field originates from the like-named observable; endpoints come from the package's
-    source / destination; uptime roles; the merge keeps each protocol's fields under its own name
- R2 the unified crate calls exactly the protocol crates' entry points (process_{tcp,http,tls}_ipv{4,6}) with its own caches
- R3 each *_enabled flag guards exactly its own protocol call; the disabled branch yields the all-None package
+    source / destination and pair address with port of the same side; uptime roles; the merge keeps each protocol's fields
+    under its own name; no two same-typed named arguments are exchanged at any call in the workspace; request/response table
+    routing (C13.R2)
+ R2 the unified crate calls exactly the protocol crates' entry points with its own caches; analyzers see the IP payload; the
+    unified packet parser tries the link-layer interpretations in the protocol crates' order
+ R3 each *_enabled flag guards exactly its own protocol call; the disabled branch yields the all-None package; a stateful
+    protocol step is never skipped because another protocol's step failed on the same packet
  R4 tri-state quality: Disabled iff matching is switched off / no matcher, Matched(q) with q from the matcher result,
     NotMatched otherwise - in the unified glue and in the tcp / http result builders
  R5 constructor: matchers exist iff matcher_enabled && protocol enabled; caches sized max_connections iff enabled
